@@ -70,7 +70,7 @@ def handleFq (qid : Bool) (typ : String) (enc : Biogo.Fastq.Encoding) (alpha : S
   let (wrecs, wenc) := if plain then (recs.map Biogo.Fastq.ofPlain, Biogo.Fastq.Encoding.sanger) else (recs, enc)
   let (sink, ns) := Biogo.Fastq.writeAll qtables qid wenc {} wrecs
   let bytes := sink.bytes
-  let calls := Biogo.Fastq.readAll (fastqCfg typ enc) bytes
+  let calls := Biogo.Fastq.readAll (fastqCfg typ enc) (eofWithData bytes) bytes
   let model := s!"w {showNats ns} {showNats ns} {hex16 (fnv1a bytes)} {bytes.length} r {fastqCalls calls}"
   verdict wf expected model obs tags
 
